@@ -77,6 +77,7 @@ pub struct Corpus {
     pub files: usize,
     pub from_tests_dir: usize,
     pub from_unit_tests: usize,
+    pub from_docs: usize,
 }
 
 pub fn load(repo: &Path) -> Corpus {
@@ -114,5 +115,37 @@ pub fn load(repo: &Path) -> Corpus {
         }
     }
     let from_unit_tests = items.len() - from_tests_dir;
-    Corpus { items, files, from_tests_dir, from_unit_tests }
+
+    // the documentation's examples: fenced code blocks of README.md and of the doc comments
+    let mut from_docs = 0;
+    for (rel, strip) in [("README.md", ""), ("src/lib.rs", "//!"), ("o2o-macros/src/lib.rs", "///")] {
+        let Ok(src) = std::fs::read_to_string(repo.join(rel)) else { continue };
+        files += 1;
+        let mut block: Option<String> = None;
+        let mut n = 0;
+        for line in src.lines() {
+            let line = if strip.is_empty() { line } else { line.trim_start().strip_prefix(strip).unwrap_or(line) };
+            let line = line.strip_prefix(' ').unwrap_or(line);
+            if line.trim_start().starts_with("```") {
+                match block.take() {
+                    None => block = Some(String::new()),
+                    Some(code) => {
+                        if let Ok(file) = syn::parse_file(&code) {
+                            let mut c = Collector { items: Vec::new(), origin: format!("W6:{}@block{}", rel, n) };
+                            c.visit_file(&file);
+                            from_docs += c.items.len();
+                            items.extend(c.items);
+                        }
+                        n += 1;
+                    },
+                }
+            } else if let Some(b) = block.as_mut() {
+                // rustdoc's hidden lines
+                let l = line.strip_prefix("# ").unwrap_or(line);
+                b.push_str(l);
+                b.push('\n');
+            }
+        }
+    }
+    Corpus { items, files, from_tests_dir, from_unit_tests, from_docs }
 }
